@@ -33,8 +33,8 @@ class TimestampPacketReceiver(Elaboratable):
         self.header_sink          = HeaderQueue()
 
         self.update_received      = Signal()
-        self.bus_interval_counter = Signal()
-        self.delta                = Signal()
+        self.bus_interval_counter = Signal(14)
+        self.delta                = Signal(13)
 
 
     def elaborate(self, platform):
